@@ -69,6 +69,7 @@ IDIOMS = {
     "lambda-as-def": "`f = lambda a, b: e` (one statement of the enclosing function's body, f assigned nowhere else in that block, plain positional parameters) is `def f(a, b): return e`; listed in the spec as 'outer.f' it is translated as its own function: that it is CALLED where the model says is not covered by the link, and names it closes over must be construction-time parameters / state fields of the spec",
     "optional-number-ordering": "`<`, `<=`, `>`, `>=` between a number and ONE operand of type Optional[int] / Optional[float]: the Optional operand is unwrapped, None raises TypeError (as CPython: '<=' not supported between instances of 'int' and 'NoneType'); not offered inside a comparison chain",
     "with-lock-as-block": "`with self.<lock>: body` on a lock the spec lists under lock_attrs (no `as`, top-level statement, no return/break/continue inside) is `body`: the sequential meaning; mutual exclusion / blocking / re-entrancy are NOT modelled (removing the `with` does not change the generated definition)",
+    "format-bin-zfill": "`format(e, \"b\").zfill(n)` on ints is py_format_bin_zfill e n (binary digits of |e|, '-' first when e < 0, '0'-padded between sign and digits to at least n characters in all); `format(e, f\"0{n}b\")` is py_format_bin_fspec e n: the same text for n >= 0, ValueError for n < 0 (the format spec would read \"0-3b\"; CPython 3.12 checked). An operand of another type is read through the spec's partial view format_int_view[type] (data representation). Every other use of format() / str.zfill is rejected",
 }
 
 KEYWORDS = set("at as end in fun let match with if then else for forall exists return using where Set Prop Type fix cofix struct do "
@@ -1095,6 +1096,8 @@ class FunctionTranslator:
             d = self.dotted(f)
             if d is not None and isinstance(f.value, ast.Name) and f.value.id not in env.vars and d in self.mod.translated:
                 return self.call_translated(self.mod.translated[d], None, args, kwargs, node, env)  # additive: Class.staticmethod(...)
+            if f.attr == "zfill" and self.is_builtin_format_call(f.value, env):
+                return self.format_bin(node, f.value, args, kwargs, env)  # additive (format-bin-zfill): format(e, "b").zfill(n)
             recv = self.expr(f.value, env)
             return self.method_call(recv, f.attr, args, kwargs, node, env)
         self.bad(node, "call of a computed function")
@@ -1381,6 +1384,59 @@ class FunctionTranslator:
             if v.ty in (Z, Q):
                 return self.coerce(v, Q, node)
         self.bad(node, "float() form")
+
+    # -- format(e, f"0{n}b") and format(e, "b").zfill(n)  (idiom format-bin-zfill); every other use of format() is rejected
+    FORMAT_FORMS = "only `format(e, f\"0{n}b\")` and `format(e, \"b\").zfill(n)` are in the subset (idiom format-bin-zfill)"
+
+    def is_builtin_format_call(self, n, env) -> bool:
+        """is `n` a call of the BUILT-IN format (not a local, a spec function or a translated function of that name)?"""
+        return (isinstance(n, ast.Call) and isinstance(n.func, ast.Name) and n.func.id == "format" and "format" not in env.vars
+                and "format" not in self.fs.get("funcs", {}) and "format" not in self.spec.get("funcs", {}) and "format" not in self.mod.translated)
+
+    def format_int_operand(self, v: Val, node, what) -> Val:
+        """an int operand of the two format forms: a Z as it is; a value of another type only through the spec's partial view
+        format_int_view = {type name: template of type `result Z` over {0}} (data representation; e.g. untyped Python values)"""
+        if v.ty == Z:
+            return v
+        view = self.spec.get("format_int_view", {}).get(v.ty.name if v.ty.kind == "nom" else repr(v.ty))
+        if view is None:
+            self.bad(node, f"format(): the {what} has type {v.ty}, not int (and the spec names no format_int_view for it)")
+        return self.partial(view.format(paren(v.code)), Z, "z")
+
+    def b_format(self, node, args, kwargs, env):
+        """format(e, f"0{n}b"): the format spec must be the f-string made of the literal "0", ONE plain replacement field {n}
+        (no conversion, no format spec of its own) and the literal "b".  py_format_bin_fspec e n: ValueError for n < 0."""
+        if kwargs or len(args) != 2:
+            self.bad(node, "format(): " + self.FORMAT_FORMS)
+        fsp = args[1]
+        if isinstance(fsp, ast.Constant) and fsp.value == "b":
+            self.bad(node, "format(e, \"b\") as a value of its own: " + self.FORMAT_FORMS)
+        ok = (isinstance(fsp, ast.JoinedStr) and len(fsp.values) == 3
+              and isinstance(fsp.values[0], ast.Constant) and fsp.values[0].value == "0"
+              and isinstance(fsp.values[1], ast.FormattedValue) and fsp.values[1].conversion == -1 and fsp.values[1].format_spec is None
+              and isinstance(fsp.values[2], ast.Constant) and fsp.values[2].value == "b")
+        if not ok:
+            self.bad(node, "format() with this format spec: " + self.FORMAT_FORMS)
+        self.idiom("format-bin-zfill")
+        self.idiom("int-as-Z")
+        self.idiom("str-as-string")
+        # Python's order: e, then the pieces of the f-string (n), then the formatting itself
+        k = self.format_int_operand(self.expr(args[0], env), node, "formatted value")
+        n = self.format_int_operand(self.expr(fsp.values[1].value, env), node, "width")
+        return self.partial(f"py_format_bin_fspec {paren(k.code)} {paren(n.code)}", STR, "s")
+
+    def format_bin(self, node, fcall, args, kwargs, env):
+        """format(e, "b").zfill(n) — `fcall` is the inner call of the built-in format: py_format_bin_zfill e n (total on ints)"""
+        fargs = list(fcall.args)
+        if (fcall.keywords or len(fargs) != 2 or any(isinstance(a, ast.Starred) for a in fargs)
+                or not (isinstance(fargs[1], ast.Constant) and fargs[1].value == "b") or kwargs or len(args) != 1):
+            self.bad(node, "format(...).zfill(...): " + self.FORMAT_FORMS)
+        self.idiom("format-bin-zfill")
+        self.idiom("int-as-Z")
+        self.idiom("str-as-string")
+        k = self.format_int_operand(self.expr(fargs[0], env), node, "formatted value")
+        n = self.format_int_operand(self.expr(args[0], env), node, "width")
+        return Val(f"(py_format_bin_zfill {paren(k.code)} {paren(n.code)})", STR)
 
 
 # ====================================================================================== statements
